@@ -109,7 +109,7 @@ def history(ctx, rnd, marky=False):
         st = opwork.setup_history(ctx, rnd, ids=list(schemas.TOTALITY), random_share=0.0, nslices=3, wide=0.05, mark_p=0.65,
                                   budget=rnd.choice([24, 36, 50]))
     else:
-        st = opwork.setup_history(ctx, rnd, ids=list(schemas.TOTALITY), random_share=0.0, nslices=4, wide=0.1)
+        st = opwork.setup_history(ctx, rnd, ids=list(schemas.TOTALITY), random_share=0.0, nslices=4, wide=0.1, nested_attrs=rnd.random() < 0.5)
     if st is None:
         return
     sch, g, d, p, slices = st
